@@ -141,16 +141,20 @@ func jobs() []job {
 type config struct {
 	cpu, batch, gomax int
 	yield             string
+	debug             bool // --debug: more is logged on stderr, nothing else may change
 }
 
 func (k config) String() string {
-	return fmt.Sprintf("max-cpu=%d batch-size=%d GOMAXPROCS=%d yield=%s", k.cpu, k.batch, k.gomax, k.yield)
+	return fmt.Sprintf("max-cpu=%d batch-size=%d GOMAXPROCS=%d yield=%s debug=%v", k.cpu, k.batch, k.gomax, k.yield, k.debug)
 }
 
 func runJob(c *core.Ctx, bindir string, j job, dir string, k config, raceLog string) cmdx.Res {
 	args := []string{"--max-cpu", fmt.Sprint(k.cpu), "--batch-size", fmt.Sprint(k.batch)}
 	if !j.noPB {
 		args = append(args, "--no-progressbar")
+	}
+	if k.debug {
+		args = append(args, "--debug")
 	}
 	args = append(args, j.args(dir)...)
 	env := []string{"OBIVERIF_POISON=1"}
@@ -255,6 +259,7 @@ func runMatrix(c *core.Ctx, race bool) {
 		if c.Rng.Intn(3) == 0 {
 			k.gomax = []int{1, 2, 4}[c.Rng.Intn(3)]
 		}
+		k.debug = c.Rng.Intn(5) == 0
 		res := runJob(c, bindir, j, dir, k, raceLog)
 		c.Count("evaluations", 1)
 		c.Count("command_runs."+j.bin, 1)
@@ -453,7 +458,7 @@ func init() {
 		ID:    "C05",
 		Level: "exploration",
 		Rule: "each case = one (command, functional option set, generated input of 0/1/2/2500/4000 records: annotated FASTA/FASTQ, overlapping read pairs, tagged amplicons + sample sheet, templates with planted priming sites); the command is run with a reference configuration and then with 7 (quick) / 24 (thorough) other (--max-cpu in 1..32, --batch-size in 1..N, GOMAXPROCS, injected yield seeds, plain repetitions) with recycled buffers poisoned (0xDB); oracle: exit 0, byte-identical stdout, no poison byte; the same matrix on -race builds (reports with a site in the anchored files); porcupine linearizability of concurrent attribute operations on one sequence. " +
-			"Added later: reads trimmed to 1-12 bases in the pair generator, obiclean annotations for obisummary, compressed outputs (-Z: raw bytes compared, poison looked for in the inflated text), obipcr --fragmented on 100-140 kb templates with products inside the overlaps of consecutive pieces. " +
+			"Added later: --debug as one more non-functional axis, --output-OBI-header and obicsv --auto jobs, reads trimmed to 1-12 bases in the pair generator, obiclean annotations for obisummary, compressed outputs (-Z: raw bytes compared, poison looked for in the inflated text), obipcr --fragmented on 100-140 kb templates with products inside the overlaps of consecutive pieces. " +
 			"distinct_nontrivial = distinct (command option set, input size, max-cpu, batch-size, yield on/off, GOMAXPROCS) configurations compared with the reference on inputs of more than 2 records, plus linearizability histories",
 		Assume: []string{"metamorphic oracle: no model of the commands is needed, only equality with the reference configuration", "obicsv --auto takes its columns from the first batch (documented): it is exercised on inputs whose records all carry the same attributes, so that only the order of the columns is at stake", "the annotation map exists before it is shared (as in every command)"},
 		Subs: []core.Sub{
